@@ -472,6 +472,71 @@ def rule_forall_total_rows(db: ProgramDB) -> List[Instance]:
                     "rows are accumulated as the condition yields them: a branch that holds without mentioning one of the "
                     "other variables yields a row that does not bind it, and intersecting it with rows that do bind it gives "
                     "nothing (for_all(u, or_(u.m > 1, x.m == 2)) returns [] as soon as some u has m > 1)"))
+    if completing is not None:
+        out.extend(_completion_keeps_earlier(db, completing))
+    return out
+
+
+def _completion_keeps_earlier(db: ProgramDB, h: FuncInfo) -> List[Instance]:
+    """Inside the completion helper every value stream `v._evaluate…(copy(X))` is started under the binding X completed so
+    far, and every row built from a value of that stream contains the whole of X and the whole value: completing a second
+    unbound variable must not lose the first."""
+    from .binding import _whole_names, _outputs_of_loop
+    out = []
+
+    def started_under(call: ast.Call) -> Optional[str]:
+        args = list(call.args) + [k.value for k in call.keywords]
+        for a in args:
+            if isinstance(a, ast.Name):
+                return a.id
+            if isinstance(a, ast.Call) and (dotted(a.func) or "") in ("copy", "dict", "copy.copy") and a.args and isinstance(a.args[0], ast.Name):
+                return a.args[0].id
+            if isinstance(a, ast.Dict) and any(k is None and isinstance(v, ast.Name) for k, v in zip(a.keys, a.values)):
+                return next(v.id for k, v in zip(a.keys, a.values) if k is None and isinstance(v, ast.Name))
+        return None
+
+    def whole_in_expr(e: ast.AST, names: Set[str]) -> bool:
+        if isinstance(e, ast.Name):
+            return e.id in names
+        if isinstance(e, ast.Dict):
+            return any(k is None and whole_in_expr(v, names) for k, v in zip(e.keys, e.values))
+        if isinstance(e, ast.Call) and (dotted(e.func) or "") in ("copy", "dict", "copy.copy") and e.args:
+            return whole_in_expr(e.args[0], names)
+        return False
+    n = 0
+    for node in own_nodes(h.node):
+        # for-statement form
+        if isinstance(node, ast.For) and isinstance(node.iter, ast.Call) and is_eval_method_name(call_attr(node.iter)) \
+                and isinstance(node.target, ast.Name):
+            x = started_under(node.iter)
+            if x is None:
+                continue
+            n += 1
+            a = _whole_names(h, node, {node.target.id})
+            b = _whole_names(h, node, {x})
+            for onode, exprs in _outputs_of_loop(h, node):
+                ok = any(whole_in_expr(e, a) and whole_in_expr(e, b) for e in exprs)
+                out.append(inst("FORALL-TOTAL-ROWS", HOLDS if ok else VIOLATION, h, f"{h.short}[row built from a value of {unparse(node.iter)[:36]}]",
+                                f"contains the binding `{x}` completed so far and the value" if ok else
+                                f"`{unparse(onode)[:60]}` does not hand on both the binding `{x}` the value stream was started under "
+                                f"and the value `{node.target.id}`: a row that leaves two variables unbound is completed with the "
+                                f"last one only, and falls out of the intersection", line=onode.lineno))
+        # comprehension form
+        if isinstance(node, (ast.ListComp, ast.GeneratorExp, ast.SetComp)):
+            for g in node.generators:
+                if isinstance(g.iter, ast.Call) and is_eval_method_name(call_attr(g.iter)) and isinstance(g.target, ast.Name):
+                    x = started_under(g.iter)
+                    if x is None:
+                        continue
+                    n += 1
+                    ok = whole_in_expr(node.elt, {x}) and whole_in_expr(node.elt, {g.target.id})
+                    out.append(inst("FORALL-TOTAL-ROWS", HOLDS if ok else VIOLATION, h, f"{h.short}[row built from a value of {unparse(g.iter)[:36]}]",
+                                    f"contains the binding `{x}` completed so far and the value" if ok else
+                                    f"`{unparse(node.elt)[:60]}` does not contain both the binding `{x}` the value stream was started "
+                                    f"under and the value `{g.target.id}`: a row that leaves two variables unbound is completed with "
+                                    f"the last one only, and falls out of the intersection", line=node.lineno))
+    if n == 0:
+        out.append(inst("FORALL-TOTAL-ROWS", UNDECIDED, h, f"{h.short}[value streams]", "no value stream started under a named binding found in the completion helper"))
     return out
 
 
